@@ -278,6 +278,24 @@ impl Check for C01Check {
             }
             cx.stats.exhaustive_parts.insert(format!("every 2-way byte cut, byte-at-a-time and char-at-a-time feeding of {} pool sequences (+ sentinel text), UTF-8 and 8-bit, with a mode switch at the first cuts", pool.len()));
         }
+        // (b+) all ordered pairs of the sequences that other terminals implement (title stack,
+        // reports, SGR stack, alternate screen ...) and of the OSC strings: state that one leaves
+        // behind in the recogniser for the other to trip over
+        if cx.begin_group("pool pairs") {
+            let pool = crate::checks::parsing::seq_pool();
+            let sub: Vec<&String> = pool.iter().filter(|s| s.contains(']') || s.contains('\u{9d}') || s.ends_with('t') || s.ends_with('s') || s.ends_with('u')).chain(pool.iter().skip(pool.len().saturating_sub(55))).collect();
+            let mut k = 0u64;
+            for a in &sub {
+                for b in &sub {
+                    k += 1;
+                    if !cx.mine(k) {
+                        continue;
+                    }
+                    c01_case(cx, 6, 2, if k % 2 == 0 { PK::Chars } else { PK::Bytes }, &[Op::Feed(format!("{}{}ok", a, b))], "pool-pair");
+                }
+            }
+            cx.stats.exhaustive_parts.insert(format!("all {} ordered pairs of {} pool sequences (OSC strings, window / title-stack operations, sequences implemented elsewhere)", sub.len() * sub.len(), sub.len()));
+        }
         // (b'') extremes of length: parameter lists, digit runs, payloads and text runs far longer
         // than any real program sends (stack growth per element, caps, counters)
         if cx.begin_group("long lists, runs and payloads") {
